@@ -1,7 +1,8 @@
 #!/usr/bin/env python3
 """Sensitivity self-test: applies each patch in /verif/mutants (or /verif/seeded/*/patch.diff with --seeded)
 to /repo, runs the pinned suite with the guard off and the named checks, and reverts. Never leaves /repo dirty.
-usage: run_mutants.py [--seeded] [--all-checks] [name ...]"""
+usage: run_mutants.py [--seeded|--benign] [--all-checks] [name ...]
+--benign: applies /verif/benign/*.diff (behaviour-preserving changes) and runs EVERY check: each must exit 0."""
 import subprocess, json, os, sys, time, glob
 def sh(cmd, **k): return subprocess.run(cmd, shell=True, capture_output=True, text=True, **k)
 REPO = os.environ.get("MUT_REPO", "/repo")
@@ -12,11 +13,16 @@ def revert(patch=None):
     elif patch: sh("cd %s && git apply -R %s" % (REPO, patch))
 args = [a for a in sys.argv[1:] if not a.startswith("--")]
 seeded = "--seeded" in sys.argv
-allchecks = "--all-checks" in sys.argv
+benign = "--benign" in sys.argv
+allchecks = "--all-checks" in sys.argv or benign
 nosuite = "--no-suite" in sys.argv
 ALL = [c["property_id"] for c in json.load(open(os.path.join(VERIF, "MANIFEST.json")))["checks"]]
 items = []
-if seeded:
+if benign:
+    meta = json.load(open(os.path.join(VERIF, "benign/benign.json")))
+    for name in sorted(meta):
+        items.append((name, os.path.join(VERIF, "benign/%s.diff" % name), []))
+elif seeded:
     for d in sorted(glob.glob(os.path.join(VERIF, "seeded/*/"))):
         name = os.path.basename(d.rstrip("/"))
         meta = json.load(open(d + "meta.json"))
@@ -47,6 +53,14 @@ try:
             c = sh("cd %s && VERIF_REPO=%s timeout 900 bin/check %s quick" % (VERIF, REPO, p))
             sigs = [l.strip().split("signature=")[1].split()[0] for l in c.stdout.splitlines() if "signature=" in l]
             r["checks"][p] = {"exit": c.returncode, "sigs": sigs[:4], "s": round(time.time() - t0, 1)}
+        if benign:
+            alarms = {p: x for p, x in r["checks"].items() if x["exit"] != 0}
+            r["alarms"] = sorted(alarms)
+            results[name] = r
+            print("%-45s suite=%-5s %s" % (name, r["suite"], "silent (all %d checks exit 0)" % len(r["checks"]) if not alarms else "ALARM %s" % {p: (x["exit"], x["sigs"][:2]) for p, x in alarms.items()}))
+            sys.stdout.flush()
+            revert(patch)
+            continue
         caught = [p for p, x in r["checks"].items() if x["exit"] == 1]
         r["caught_by"] = caught
         results[name] = r
@@ -55,7 +69,7 @@ try:
         revert(patch)
 finally:
     if ISGIT: revert()
-out = os.environ.get("MUT_OUT", "/verif/seeded/results.json" if seeded else "/verif/mutants/results.json")
+out = os.environ.get("MUT_OUT", "/verif/benign/results.json" if benign else "/verif/seeded/results.json" if seeded else "/verif/mutants/results.json")
 old = {}
 if os.path.exists(out):
     old = json.load(open(out))
